@@ -39,11 +39,13 @@ func HPublicValue() {
 	i := vr.Param(0)
 	f, _, _ := vGroup(i)
 	xb := vr.Bytes(256)
-	out := StrToType(vNames[i]).GetPublicValue(new(big.Int).SetBytes(xb))
+	x := new(big.Int).SetBytes(xb)
+	out := StrToType(vNames[i]).GetPublicValue(x)
 	vr.Assert("c09.len", len(out) == vLen[i])
 	if len(out) == vLen[i] {
 		vr.Assert("c09.value", vr.EqBytes(out, vr.ModExpBytes([]byte{2}, xb, f.Bytes(), vLen[i])))
 	}
+	vr.Assert("c09.operands-unchanged", x.Cmp(new(big.Int).SetBytes(xb)) == 0)
 }
 
 // HSharedKey (C09): GetSharedKey(x, y) is the big-endian image of y^x mod p on exactly the modulus
@@ -52,11 +54,14 @@ func HSharedKey() {
 	i := vr.Param(0)
 	f, _, _ := vGroup(i)
 	xb, yb := vr.Bytes(256), vr.Bytes(257)
-	out := StrToType(vNames[i]).GetSharedKey(new(big.Int).SetBytes(xb), new(big.Int).SetBytes(yb))
+	x, y := new(big.Int).SetBytes(xb), new(big.Int).SetBytes(yb)
+	out := StrToType(vNames[i]).GetSharedKey(x, y)
 	vr.Assert("c09.len", len(out) == vLen[i])
 	if len(out) == vLen[i] {
 		vr.Assert("c09.value", vr.EqBytes(out, vr.ModExpBytes(yb, xb, f.Bytes(), vLen[i])))
 	}
+	// the caller's numbers are operands, not scratch space: the same call again gives the same secret
+	vr.Assert("c09.operands-unchanged", x.Cmp(new(big.Int).SetBytes(xb)) == 0 && y.Cmp(new(big.Int).SetBytes(yb)) == 0)
 }
 
 // HAgreement (C09): two parties compute the same shared secret from each other's public values
